@@ -92,8 +92,9 @@ Qed.
 Lemma incsize_scalar v r : scalar v -> incsize (v :: r) = 1.
 Proof. destruct v; cbn; tauto. Qed.
 
-(* a slot of a list of values and arrays of values: a value or an array header *)
-Definition sa (v : av) : Prop := match v with VRep _ _ | VSpc _ => False | _ => True end.
+(* a slot of a list of values and arrays of values: a value, an array header or
+   the filler behind a converted range *)
+Definition sa (v : av) : Prop := match v with VRep _ _ => False | _ => True end.
 Lemma scalar_sa v : scalar v -> sa v.
 Proof. destruct v; cbn; tauto. Qed.
 
